@@ -42,6 +42,8 @@ FIELDS = {
     "holes": ["a: H1", "b: Optional[H2] = None", "c: Dict[str, int] = field(default_factory=dict)"],
     "small": ["a: bytes", "b: Optional[datetime.date] = None"],
     "selfref": ["a: bytes", "b: Optional[datetime.date] = None", "s: Optional[Self] = None"],
+    # C is a subclass of a class with a Self field and adds a field of its own
+    "selfsub": ["t: int = 0"],
 }
 
 
@@ -79,7 +81,13 @@ def class_source(p: FPoint):
     fields = list(FIELDS[p.fields])
     if p.nested or p.mode == "postponed":
         fields.append("n: Optional['Later'] = None")
-    src += ["@dataclass", f"class C({mixname}):"] + ["    " + f for f in fields]
+    if p.fields == "selfsub":
+        src += ["@dataclass", f"class Node({mixname}):", "    a: bytes = b''", "    s: Optional[Self] = None"]
+        if cfg:
+            src += ["    class Config(BaseConfig):"] + ["        " + c for c in cfg]
+        src += ["@dataclass", "class C(Node):"] + ["    " + f for f in fields]
+    else:
+        src += ["@dataclass", f"class C({mixname}):"] + ["    " + f for f in fields]
     if cfg:
         src += ["    class Config(BaseConfig):"] + ["        " + c for c in cfg]
     if p.nested or p.mode == "postponed":
@@ -104,6 +112,8 @@ def sample_instance(mod, p: FPoint):
         kw = dict(a=mod.H1(1), b=None, c={"k": 1})
     if p.nested or p.mode == "postponed":
         kw["n"] = mod.Later(b"z", None)
+    if p.fields == "selfsub":
+        kw = dict(a=b"ab", t=1, s=mod.C(a=b"cd", t=2, s=mod.C(a=b"ef", t=3)))
     if p.fields == "selfref":
         kw["s"] = mod.C(**dict(kw, a=b"cd"))
     return mod.C(**kw)
@@ -478,6 +488,7 @@ def g7_task(payload):
             probs += pr
             ncalls += nc
             probs += units.slot_obligations(r)
+            probs += units.owned_call_problems(r)
         obs.append(dict(id=f"{pid}.G7{label}/stubs", status="proved" if not probs else "refuted", unit=f"{ncalls} embedded rebuild calls in {len(mine)} texts",
                         detail="; ".join(sorted(set(probs)))[:900],
                         witness=({"confirmed": bool(first), "source": src, "why": (first[0] if first else sorted(set(probs))[0])} if probs else None)))
@@ -645,6 +656,8 @@ def lattice(tier):
                     pts.append(FPoint(mixin, mode, ds, "small", True, "strategy" if ds else "none"))
                     # a Self-typed field: the nested unit is built by the Self branch of pack.py / unpack.py
                     pts.append(FPoint(mixin, mode, ds, "selfref", False, "strategy" if ds else "none"))
+                    if not ds:
+                        pts.append(FPoint(mixin, mode, ds, "selfsub", False, "none"))
     seen, out = set(), []
     for p in pts:
         if p.label() not in seen:
